@@ -62,7 +62,12 @@ impl FlowMetrics {
     }
 
     fn pending_inc(&self) {
-        let pending = self.pending_batches.fetch_add(1, Ordering::Relaxed) + 1;
+        // A receiver may account for a batch (pending_dec) before the sender that delivered it gets
+        // here, so the counter can transiently wrap below zero; it must not overflow-panic.
+        let pending = self
+            .pending_batches
+            .fetch_add(1, Ordering::Relaxed)
+            .wrapping_add(1);
         loop {
             let current_peak = self.peak_pending.load(Ordering::Relaxed);
             if pending <= current_peak {
